@@ -113,7 +113,12 @@ def cmdBufRun (c : Case) : IO UInt32 := do
     | "interactive", v :: _ => inter := v == "1"
     | _, _ => pure ()
   let src := rs.srcs.getD 0 []
-  let D := tableDFA c.tables inter
+  let D0 := tableDFA c.tables inter
+  -- (speed only) whether a state has no outgoing transition is looked up, not recomputed per byte
+  let deadArr : Array Bool := (Array.range (c.tables.accept.size + 2)).map fun n => D0.dead (.st (Int.ofNat n))
+  let D : Buf.DFA DState := { D0 with dead := fun s => match s with
+    | .st n => if 0 ≤ n && n.toNat < deadArr.size then deadArr[n.toNat]! else D0.dead s
+    | s => D0.dead s }
   let dflt := c.tables.numRules
   -- the default rule's ECHO takes no script; a script the buffer level cannot express ends the run
   let unsupported := rs.acts.any fun ops => (bufAct ops 0 []).isNone
